@@ -188,14 +188,21 @@ def _heading_text(r):
             parts.append(r.choice(["[" + w + "][r]", "[" + w + "][R]", "[r]", "[" + w + "][]"]))
             plain.append("r" if parts[-1] == "[r]" else (w if not parts[-1].endswith("[]") else "[" + w + "][]"))
             continue
-        elif k < 0.49 and parts:
+        elif k < 0.47:
+            # an opener that finds no partner and falls back to text in the middle of a run of words (the text around it reaches
+            # the text hook of a plugin in pieces)
+            t = r.choice(["[" + w + "]", w + "[i]", "!" + w, w + "!", "[" + w, w + "]", "~" + w, "=" + w, "^" + w])
+            parts.append(t)
+            plain.append(t)
+            continue
+        elif k < 0.52 and parts:
             # inline HTML of every kind (never first, where it could open an HTML block): shown escaped when escaping is on,
             # removed from the entry text when it is off
             tag = r.choice(["<b>", "</b>", "<?php x ?>", "<!DOCTYPE html>", "<![CDATA[ y ]]>", "<!-- c -->", "<span class=\"k\">", "<em-x a=1>", "<!ELEMENT e>"])
             parts.append(tag)
             plain.append("\x01" + tag + "\x02")
             continue
-        elif k < 0.55:
+        elif k < 0.57:
             parts.append("*" + w + "*")
         elif k < 0.65:
             parts.append("**" + w + "**")
@@ -244,8 +251,13 @@ def _docs(ctx, r, n):
                 blocks.append({"k": "hr"})
         a, b = sorted([r.randint(1, 6), r.randint(1, 6)])
         docs.append({"blocks": blocks, "range": [a, b], "mode": r.choice(["hook", "hook", "directive", "directive"]),
-                     "style": r.choice(["fenced", "rst"]), "escape": r.random() < 0.7})
+                     "style": r.choice(["fenced", "rst"]), "escape": r.random() < 0.7,
+                     "plugins": r.choice([None, None, ["abbr"], ["abbr"], ["abbr", "strikethrough", "mark", "superscript"], ["strikethrough", "footnotes", "abbr", "table"]])})
     return docs
+
+
+# abbreviations that the headings use (defined at the end of every document converted with the abbr plugin)
+ABBRS = "*[alpha]: first letter\n*[Zed]: the last one\n*[x1]: x one\n"
 
 
 def _md_of(doc):
@@ -276,6 +288,8 @@ def _md_of(doc):
         else:
             out.append("***\n")
     out.append("[r]: /ref\n")
+    if "abbr" in (doc.get("plugins") or []):
+        out.append(ABBRS)
     return "\n".join(out)
 
 
@@ -287,11 +301,12 @@ def _converter(m, doc):
     inc = any(b["k"] == "inc" for b in doc["blocks"])
     if inc:
         from mistune.directives import Include
+    names = list(doc.get("plugins") or [])
     if doc["mode"] == "hook":
-        md = m.create_markdown(escape=doc["escape"], plugins=[FencedDirective([Include()])] if inc else None)
+        md = m.create_markdown(escape=doc["escape"], plugins=names + ([FencedDirective([Include()])] if inc else []))
         add_toc_hook(md, doc["range"][0], doc["range"][1])
     else:
-        md = m.create_markdown(escape=doc["escape"], plugins=[FencedDirective([TableOfContents(1, 6)] + ([Include()] if inc else []))])
+        md = m.create_markdown(escape=doc["escape"], plugins=names + [FencedDirective([TableOfContents(1, 6)] + ([Include()] if inc else []))])
     return md
 
 
@@ -371,6 +386,14 @@ def check_render(levels, render_toc_ul, fails):
         fails.append({"input": list(levels), "kind": "wrong-nesting-or-order", "got": got, "expected": exp, "html": out})
 
 
+STRIP = re.compile(r"<!--.*?-->|<[^<>]*>", re.S)
+
+
+def _heading_texts(out):
+    """[(level, id, text of the heading as the page shows it: its inner HTML without the tags)]"""
+    return [(int(lv), hid, STRIP.sub("", inner)) for lv, hid, inner in re.findall(r'<h(\d) id="([^"]*)">(.*?)</h\1>', out, re.S)]
+
+
 def check_doc(m, doc, fails):
     from mistune.toc import render_toc_ul
     md = _converter(m, doc)
@@ -397,6 +420,10 @@ def check_doc(m, doc, fails):
         ids = re.findall(r'<h(\d) id="([^"]*)">', out)
         if ids != [(str(l), i) for (l, i, _t) in want] or out.count("<h") - out.count("<hr") < len(heads):
             fails.append({"input": doc, "md": text, "kind": "hook-heading-ids", "got": ids, "expected": want, "html": out})
+            return
+        shown = _heading_texts(out)
+        if shown != want:
+            fails.append({"input": doc, "md": text, "kind": "hook-entry-is-not-the-heading-text", "got": shown, "expected": want, "html": out})
     else:
         want_all = [(b["level"], "toc_%d" % (i + 1), esc(b["plain"])) for i, b in enumerate(heads)]
         secs = [b for b in doc["blocks"] if b["k"] == "toc"]
@@ -414,6 +441,10 @@ def check_doc(m, doc, fails):
             ids = re.findall(r'<h(\d) id="([^"]*)">', out)
             if ids != [(str(l), i) for (l, i, _t) in want_all]:
                 fails.append({"input": doc, "md": text, "kind": "directive-heading-ids", "got": ids, "expected": want_all})
+                return
+            shown = _heading_texts(out)
+            if shown != want_all:
+                fails.append({"input": doc, "md": text, "kind": "directive-entry-is-not-the-heading-text", "got": shown, "expected": want_all, "html": out})
                 return
         for sec, body in zip(secs, tocs):
             want = [(l, i, t) for (l, i, t) in want_all if sec["min"] <= l <= sec["max"]]
